@@ -652,6 +652,396 @@ def compare(ctx, checks, outs):
             raise ValueError(f)
 
 
+# ---------------------------------------------------------------------- history probes (tools/HARDENING.md)
+# The functions are pure: every result must be a function of the current arguments only.  These probes run
+# the REAL functions in sequences (repeat, interleave, same ndarray object re-used / updated in place, results
+# kept and scribbled on by the caller, factories built before first use and evaluated alternately, scalar /
+# batch / broadcast call shapes) and compare with the first-pass result, which itself is checked against an
+# oracle.  Inputs are well conditioned on purpose (state, not rounding, is probed here).
+
+def _bits(r):
+    return tuple((np.asarray(v).shape, np.asarray(v).dtype.str, np.asarray(v).tobytes()) for v in r)
+
+
+def _snap(args):
+    return tuple((a.shape, a.dtype.str, a.tobytes()) if isinstance(a, np.ndarray) else a for a in args)
+
+
+def _copy(args):
+    return tuple(a.copy() if isinstance(a, np.ndarray) else a for a in args)
+
+
+def _lst_py(azi, mjd):
+    """azi_to_ra_transform written with Python floats (only + - * / %: exact IEEE, no libm)"""
+    res = (mjd / 0.997269566) % 1
+    ra = 2.54199002505 + 2 * math.pi * res - azi
+    return (ra % TWOPI) % TWOPI
+
+
+def _dir_close(ra_a, dec_a, ra_b, dec_b, tol=1e-6):
+    return all(vincenty(float(x), float(y), float(u), float(v)) <= tol
+               for x, y, u, v in zip(np.atleast_1d(ra_a), np.atleast_1d(dec_a), np.atleast_1d(ra_b), np.atleast_1d(dec_b)))
+
+
+def _hist_funcs():
+    from skyllh.core.utils.coords import angular_separation, rotate_spherical_vector
+    from skyllh.i3.utils.coords import azi_to_ra_transform, ra_to_azi_transform, hor_to_equ_transform
+    from skyllh.analyses.i3.publicdata_ps.utils import psi_to_dec_and_ra
+
+    def f_sep(ra1, d1, ra2, d2, fl):
+        return (angular_separation(ra1, d1, ra2, d2, psi_floor=fl),)
+
+    def f_rot(*a):
+        return tuple(rotate_spherical_vector(*a))
+
+    def f_a2r(azi, mjd):
+        return (azi_to_ra_transform(azi, mjd),)
+
+    def f_r2a(ra, mjd):
+        return (ra_to_azi_transform(ra, mjd),)
+
+    def f_h2e(azi, zen, mjd):
+        return tuple(hor_to_equ_transform(azi, zen, mjd))
+
+    def f_p2d(src_dec, src_ra, psi, t):
+        return tuple(psi_to_dec_and_ra(StubRSS(list(np.atleast_1d(t))), src_dec, src_ra, psi))
+
+    def o_sep(a, r):
+        (ra1, d1, ra2, d2, fl) = a
+        for i in range(len(ra1)):
+            w = vincenty(ra1[i], d1[i], ra2[i], d2[i])
+            ref = w if fl is None else max(w, fl)
+            if not abs(float(r[0][i]) - ref) <= sep_tol(ra1[i], d1[i], ra2[i], d2[i], w):
+                return f'element {i}: {float(r[0][i])!r} is not the angle {ref!r}'
+
+    def o_rot(a, r):
+        for i in range(len(a[0])):
+            (ra, dec) = (float(r[0][i]), float(r[1][i]))
+            if not (0.0 <= ra < TWOPI and -HALFPI <= dec <= HALFPI):
+                return f'element {i}: ({ra!r}, {dec!r}) out of range'
+            got = vincenty(ra, dec, a[2][i], a[3][i])
+            want = vincenty(a[4][i], a[5][i], a[0][i], a[1][i])
+            if not abs(got - want) <= 1e-9:
+                return f'element {i}: separation {got!r} != {want!r}'
+
+    def o_a2r(a, r):
+        for i in range(len(a[0])):
+            if float(r[0][i]) != _lst_py(float(a[0][i]), float(a[1][i])):
+                return f'element {i}: {float(r[0][i])!r} != {_lst_py(float(a[0][i]), float(a[1][i]))!r}'
+
+    def o_h2e(a, r):
+        for i in range(len(a[0])):
+            if float(r[0][i]) != _lst_py(float(a[0][i]), float(a[2][i])) or float(r[1][i]) != PI - float(a[1][i]):
+                return f'element {i}: ({float(r[0][i])!r}, {float(r[1][i])!r})'
+
+    def o_p2d(a, r):
+        (sd, sr, psi, t) = a
+        for i in range(len(psi)):
+            (dec, ra) = (float(r[0][i]), float(r[1][i]))
+            if not (0.0 <= ra < TWOPI and -HALFPI <= dec <= HALFPI):
+                return f'element {i}: ({dec!r}, {ra!r}) out of range'
+            if not abs(vincenty(ra, dec, sr, sd) - psi[i]) <= 1e-7:
+                return f'element {i}: separation {vincenty(ra, dec, sr, sd)!r} != psi {psi[i]!r}'
+
+    return {
+        'angular_separation': (f_sep, o_sep, 'scalar'),
+        'rotate_spherical_vector': (f_rot, o_rot, 'dirs'),
+        'azi_to_ra_transform': (f_a2r, o_a2r, 'ra'),
+        'ra_to_azi_transform': (f_r2a, o_a2r, 'ra'),
+        'hor_to_equ_transform': (f_h2e, o_h2e, 'radec'),
+        'psi_to_dec_and_ra': (f_p2d, o_p2d, 'decra'),
+    }
+
+
+def _hist_args(site, rng, n, base=None, edge=False):
+    """well-conditioned arguments of length n; with `base`, a variant sharing base's first and last element;
+    with `edge`, boundary values of the domains (candidates for in-place "sanitising" of the caller's arrays)"""
+    def u(lo, hi):
+        return np.array([rng.uniform(lo, hi) for _ in range(n)])
+    if site == 'angular_separation':
+        ra1, d1 = u(-1.0, 7.0), u(-1.2, 1.2)
+        ra2, d2 = ra1 + u(0.3, 2.0), np.clip(d1 + u(-0.3, 0.3), -1.4, 1.4)
+        a = [ra1, d1, ra2, d2, rng.choice([None, None, 0.7, 1.5])]
+    elif site == 'rotate_spherical_vector':
+        ra1, d1 = u(0.0, TWOPI), u(-1.0, 1.0)
+        ra2, d2 = ra1 + u(0.4, 1.5), np.clip(d1 + u(-0.3, 0.3), -1.2, 1.2)
+        a = [ra1, d1, ra2, d2, u(-0.5, TWOPI), u(-1.2, 1.2)]
+    elif site in ('azi_to_ra_transform', 'ra_to_azi_transform'):
+        a = [u(0.0, TWOPI), u(40000.0, 75000.0)]
+        if n > 1:
+            a[0][1] = math.nextafter(lst(float(a[1][1])) % TWOPI, 7.0) % TWOPI    # the wrap-around neighbour
+    elif site == 'hor_to_equ_transform':
+        a = [u(0.0, TWOPI), u(0.0, PI), u(40000.0, 75000.0)]
+    elif site == 'psi_to_dec_and_ra':
+        a = [rng.uniform(-1.0, 1.0), rng.uniform(0.0, TWOPI), u(0.05, 3.0), u(0.0, TWOPI)]
+    else:
+        raise ValueError(site)
+    if edge and n >= 6:
+        if site == 'angular_separation':
+            a[0][:4] = [-0.5, TWOPI + 0.25, 0.0, 1.0]
+            a[1][:4] = [HALFPI, -HALFPI, 0.0, 0.3]
+            a[2][:4] = [7.0, -1.0, TWOPI, 1.0]
+            a[3][:4] = [-0.2, 0.4, -HALFPI, 0.3]
+        elif site == 'rotate_spherical_vector':
+            a[4][:4] = [-0.5, TWOPI + 0.25, 0.0, TWOPI]
+            a[5][:4] = [HALFPI, -HALFPI, 0.0, 1.0]
+            a[0][4], a[2][5] = a[0][4] + TWOPI, a[2][5] - TWOPI
+        elif site in ('azi_to_ra_transform', 'ra_to_azi_transform'):
+            a[0][:3] = [0.0, math.nextafter(TWOPI, 0.0), PI]
+            a[1][:3] = [58457.0, 40000.0, 75000.0]
+        elif site == 'hor_to_equ_transform':
+            a[0][:2] = [0.0, math.nextafter(TWOPI, 0.0)]
+            a[1][:4] = [0.0, PI, HALFPI, 0.5]
+            a[2][:2] = [58457.0, 60000.0]
+        elif site == 'psi_to_dec_and_ra':
+            a[2][:4] = [0.0, PI, 1e-13, PI - 1e-9]
+            a[3][:3] = [0.0, math.nextafter(TWOPI, 0.0), PI]
+    if base is not None:
+        for x, b in zip(a, base):
+            if isinstance(x, np.ndarray) and x.shape == b.shape:
+                x[0], x[-1] = b[0], b[-1]
+        if site == 'psi_to_dec_and_ra':
+            a[0], a[1] = base[0], base[1]
+        if site == 'angular_separation':
+            a[4] = base[4]
+    return tuple(a)
+
+
+def _close(kind, r, q, tol=1e-9):
+    if kind == 'scalar':
+        return np.allclose(np.asarray(r[0], dtype=float), np.asarray(q[0], dtype=float), rtol=0, atol=tol)
+    if kind == 'ra':
+        return all(circ(float(x), float(y)) <= tol for x, y in zip(np.atleast_1d(r[0]), np.atleast_1d(q[0])))
+    if kind == 'radec':
+        return (all(circ(float(x), float(y)) <= tol for x, y in zip(np.atleast_1d(r[0]), np.atleast_1d(q[0])))
+                and np.allclose(np.asarray(r[1], dtype=float), np.asarray(q[1], dtype=float), rtol=0, atol=tol))
+    if kind == 'dirs':
+        return _dir_close(r[0], r[1], q[0], q[1])
+    if kind == 'decra':
+        return _dir_close(r[1], r[0], q[1], q[0])
+    raise ValueError(kind)
+
+
+def probe_pure(ctx, site, fn, oracle, kind, rng, hseed):
+    case = {'f': 'history', 'seed': hseed, 'site': site}
+
+    def bad(k, detail, **kw):
+        ctx.violation(site, k, detail, case=dict(case, probe=k), predicate='the result is a function of the current arguments only', **kw)
+
+    base = _hist_args(site, rng, 6)
+    arglist = [base, _hist_args(site, rng, 6), _hist_args(site, rng, 6, base=base), _hist_args(site, rng, 1),
+               _hist_args(site, rng, 33), _hist_args(site, rng, 6, edge=True), _hist_args(site, rng, 2)]
+    ref, kept = [], []
+    with np.errstate(all='ignore'):
+        # A: first pass; arguments are inputs; repeat with the SAME ndarray objects; ownership of the results
+        for i, args in enumerate(arglist):
+            ctx.count('history:calls', 2)
+            w = _copy(args)
+            before = _snap(w)
+            r1 = fn(*w)
+            if _snap(w) != before:
+                bad('argument-modified', f'call {i}: an ndarray argument was changed by the call')
+                w = _copy(args)
+            for v in r1:
+                if any(isinstance(a, np.ndarray) and isinstance(v, np.ndarray) and np.shares_memory(v, a) for a in w):
+                    bad('result-aliases-argument', f'call {i}: a returned array shares memory with an argument')
+            b1 = _bits(r1)
+            err = oracle(args, r1)
+            if err:
+                bad('wrong-result-in-sequence', f'call {i}: {err}')
+            r2 = fn(*w)
+            if _bits(r2) != b1:
+                bad('repeat-differs', f'call {i}: the same call twice in a row gives different results')
+            if _snap(w) != before:
+                bad('argument-modified', f'call {i}: an ndarray argument was changed by the repeated call')
+            if any(isinstance(x, np.ndarray) and isinstance(y, np.ndarray) and np.shares_memory(x, y) for x in r1 for y in r2):
+                bad('results-share-memory', f'call {i}: results of two calls share memory')
+            ref.append(b1)
+            kept.append(r1)
+        # B: results handed out earlier are unchanged by the later calls
+        for i, r in enumerate(kept):
+            if _bits(r) != ref[i]:
+                bad('result-changed-by-later-call', f'result of call {i} changed after later calls')
+        # C: the caller owns the results: scribble on them, then interleave (other arguments, other lengths)
+        for r in kept:
+            for v in r:
+                if isinstance(v, np.ndarray) and v.flags.writeable:
+                    v[...] = 12345.0
+        order = list(range(len(arglist))) * 2
+        rng.shuffle(order)
+        for i in order + [0, 0]:
+            ctx.count('history:calls')
+            if _bits(fn(*_copy(arglist[i]))) != ref[i]:
+                bad('history-dependent-result', f'call {i} repeated after other calls / after the caller modified earlier results differs')
+        # D: the same ndarray objects, contents updated in place by the caller (same shape)
+        w = _copy(arglist[0])
+        fn(*w)
+        for j in (1, 2, 5, 0):
+            for x, y in zip(w, arglist[j]):
+                if isinstance(x, np.ndarray):
+                    x[...] = y
+            wj = tuple(x if isinstance(x, np.ndarray) else y for x, y in zip(w, arglist[j]))
+            ctx.count('history:calls')
+            if _bits(fn(*wj)) != ref[j]:
+                bad('stale-after-inplace-update-of-argument', f'arguments of call {j} written into the arrays of the previous call: result differs')
+        # E: batch = element by element (no cross-talk between events, nothing hoisted out of the loop)
+        for i in (0, 2):
+            args = arglist[i]
+            rb = fn(*_copy(args))
+            n = max(len(a) for a in args if isinstance(a, np.ndarray))
+            for k in range(n):
+                one = tuple(a[k:k + 1].copy() if isinstance(a, np.ndarray) else a for a in args)
+                ctx.count('history:calls')
+                rs = fn(*one)
+                if not _close(kind, tuple(np.asarray(v)[k:k + 1] for v in rb), rs):
+                    bad('batch-differs-from-single-calls', f'call {i} element {k}: batch result differs from the one-element call')
+
+
+def probe_shapes(ctx, rng, hseed):
+    """scalar / broadcast call shapes against the 1-d array call"""
+    from skyllh.core.utils.coords import angular_separation, rotate_spherical_vector
+    from skyllh.i3.utils.coords import azi_to_ra_transform, ra_to_azi_transform, hor_to_equ_transform
+    from skyllh.analyses.i3.publicdata_ps.utils import psi_to_dec_and_ra
+
+    def bad(site, k, detail):
+        ctx.violation(site, k, detail, case={'f': 'history', 'seed': hseed, 'site': site, 'probe': k},
+                      predicate='the result does not depend on the call shape')
+
+    with np.errstate(all='ignore'):
+        # N events x K sources by broadcasting, and a float source against an event array
+        (n, k) = (7, 3)
+        era, edec = np.array([rng.uniform(0, TWOPI) for _ in range(n)]), np.array([rng.uniform(-1.2, 1.2) for _ in range(n)])
+        sra, sdec = np.array([rng.uniform(0, TWOPI) for _ in range(k)]), np.array([rng.uniform(-1.2, 1.2) for _ in range(k)])
+        snaps = _snap((era, edec, sra, sdec))
+        for fl in (None, 1.0):
+            grid = angular_separation(era[:, None], edec[:, None], sra[None, :], sdec[None, :], psi_floor=fl)
+            if grid.shape != (n, k):
+                bad('angular_separation', 'broadcast-differs', f'(N,1)x(1,K) gives shape {grid.shape}')
+                continue
+            for j in range(k):
+                col = angular_separation(era, edec, np.full(n, sra[j]), np.full(n, sdec[j]), psi_floor=fl)
+                flt = angular_separation(era, edec, float(sra[j]), float(sdec[j]), psi_floor=fl)
+                rev = angular_separation(float(sra[j]), float(sdec[j]), era, edec, psi_floor=fl)
+                ctx.count('history:calls', 3)
+                if not (np.allclose(grid[:, j], col, rtol=0, atol=1e-9) and np.allclose(flt, col, rtol=0, atol=1e-9)
+                        and np.allclose(rev, col, rtol=0, atol=1e-9)):
+                    bad('angular_separation', 'broadcast-differs', f'source {j}: broadcast / float-source call differs from the 1-d call')
+        if _snap((era, edec, sra, sdec)) != snaps:
+            bad('angular_separation', 'argument-modified', 'a broadcast argument was changed')
+        # scalars and scalar time with an azimuth array
+        azi = np.array([rng.uniform(0, TWOPI) for _ in range(5)])
+        mjd = np.array([rng.uniform(40000, 75000) for _ in range(5)])
+        azi[1] = math.nextafter(lst(float(mjd[1])) % TWOPI, 7.0) % TWOPI
+        zen = np.array([rng.uniform(0, PI) for _ in range(5)])
+        ra = azi_to_ra_transform(azi, mjd)
+        (hra, hdec) = hor_to_equ_transform(azi, zen, mjd)
+        for i in range(5):
+            ctx.count('history:calls', 4)
+            s1 = azi_to_ra_transform(float(azi[i]), float(mjd[i]))
+            s2 = ra_to_azi_transform(float(azi[i]), float(mjd[i]))
+            (s3, s4) = hor_to_equ_transform(float(azi[i]), float(zen[i]), float(mjd[i]))
+            s5 = azi_to_ra_transform(azi, float(mjd[i]))[i]
+            for (site, v) in (('azi_to_ra_transform', s1), ('ra_to_azi_transform', s2), ('hor_to_equ_transform', s3),
+                              ('azi_to_ra_transform', s5)):
+                if not (0.0 <= float(v) < TWOPI and float(v) == float(ra[i])):
+                    bad(site, 'scalar-differs-from-array', f'azi={float(azi[i])!r} mjd={float(mjd[i])!r}: {float(v)!r} vs {float(ra[i])!r}')
+            if float(s4) != float(hdec[i]) or float(hra[i]) != float(ra[i]):
+                bad('hor_to_equ_transform', 'scalar-differs-from-array', f'dec {float(s4)!r} vs {float(hdec[i])!r}')
+        # rotate_spherical_vector / psi_to_dec_and_ra with Python floats
+        a = _hist_args('rotate_spherical_vector', rng, 4)
+        (rra, rdec) = rotate_spherical_vector(*_copy(a))
+        for i in range(4):
+            ctx.count('history:calls')
+            (x, y) = rotate_spherical_vector(*(float(v[i]) for v in a))
+            if not (np.shape(x) == (1,) and _dir_close(x, y, rra[i:i + 1], rdec[i:i + 1])):
+                bad('rotate_spherical_vector', 'scalar-differs-from-array', f'element {i}')
+        (sd, sr, psi, t) = _hist_args('psi_to_dec_and_ra', rng, 4)
+        (dec, pra) = psi_to_dec_and_ra(StubRSS(list(t)), sd, sr, psi.copy())
+        for i in range(4):
+            ctx.count('history:calls')
+            (d1, r1) = psi_to_dec_and_ra(StubRSS([float(t[i])]), np.float64(sd), np.float64(sr), float(psi[i]))
+            if not (np.shape(d1) == (1,) and _dir_close(r1, d1, pra[i:i + 1], dec[i:i + 1])):
+                bad('psi_to_dec_and_ra', 'scalar-differs-from-array', f'element {i}')
+
+
+def probe_tdm(ctx, rng, hseed):
+    """factories built BEFORE first use and evaluated alternately on two TDMs; N events x K sources"""
+    from skyllh.core.utils.tdm import get_tdm_field_func_psi
+    from skyllh.core.utils.coords import angular_separation
+    site = 'get_tdm_field_func_psi'
+
+    def bad(k, detail):
+        ctx.violation(site, k, detail, case={'f': 'history', 'seed': hseed, 'site': site, 'probe': k},
+                      predicate='each psi field function uses the psi_floor it was created with and only its arguments')
+
+    def mk(n, k):
+        evt = [(rng.uniform(0, TWOPI), rng.uniform(-1.2, 1.2)) for _ in range(n)]
+        src = [(rng.uniform(0, TWOPI), rng.uniform(-1.2, 1.2)) for _ in range(k)]
+        pairs = [(s, e_) for s in range(k) for e_ in range(n)]
+        return StubTDM([e_[0] for e_ in evt], [e_[1] for e_ in evt], [s[0] for s in src], [s[1] for s in src],
+                       [p[0] for p in pairs], [p[1] for p in pairs]), evt, src, pairs
+
+    floors = [0.5, None, 2.0, 0.01]
+    funcs = [get_tdm_field_func_psi(psi_floor=f) for f in floors]          # all built before the first evaluation
+    tdms = [mk(6, 3), mk(4, 2)]
+
+    def snap_tdm(t):
+        return (t._d['ra'].tobytes(), t._d['dec'].tobytes(), t._d['src_array'].tobytes(),
+                t.src_evt_idxs[0].tobytes(), t.src_evt_idxs[1].tobytes())
+    snaps = [snap_tdm(t[0]) for t in tdms]
+    first = {}
+    kept = []
+    with np.errstate(all='ignore'):
+        for step, fi in enumerate([0, 1, 2, 3, 0, 2, 1, 0, 3, 0]):
+            for ti, (tdm, evt, src, pairs) in enumerate(tdms):
+                ctx.count('history:calls')
+                psi = funcs[fi](tdm, None, None)
+                fl = floors[fi]
+                for (s, e_), v in zip(pairs, psi):
+                    w = vincenty(src[s][0], src[s][1], evt[e_][0], evt[e_][1])
+                    ref = w if fl is None else max(w, fl)
+                    if not abs(float(v) - ref) <= sep_tol(src[s][0], src[s][1], evt[e_][0], evt[e_][1], w):
+                        bad('closure-state-shared-between-factory-calls',
+                            f'step {step}: field function created with psi_floor={fl!r} returned {float(v)!r}, expected {ref!r}')
+                        break
+                direct = angular_separation(np.array([evt[e_][0] for (s, e_) in pairs]), np.array([evt[e_][1] for (s, e_) in pairs]),
+                                            np.array([src[s][0] for (s, e_) in pairs]), np.array([src[s][1] for (s, e_) in pairs]),
+                                            psi_floor=fl)
+                if _bits((psi,)) != _bits((direct,)):
+                    bad('differs-from-direct-call', f'step {step}: psi field differs from angular_separation(evt, src, psi_floor={fl!r})')
+                key = (fi, ti)
+                if key in first and first[key] != _bits((psi,)):
+                    bad('history-dependent-result', f'step {step}: same field function, same TDM, different result')
+                first.setdefault(key, _bits((psi,)))
+                kept.append((key, psi))
+        for (key, psi) in kept:
+            if _bits((psi,)) != first[key]:
+                bad('result-changed-by-later-call', 'a psi array handed out earlier changed')
+        if any(np.shares_memory(kept[i][1], kept[j][1]) for i in range(len(kept)) for j in range(i + 1, len(kept))):
+            bad('results-share-memory', 'psi arrays of different evaluations share memory')
+        for (key, psi) in kept:
+            psi[...] = 12345.0                                              # the caller owns them
+        for fi in (0, 1):
+            (tdm, evt, src, pairs) = tdms[0]
+            if _bits((funcs[fi](tdm, None, None),)) != first[(fi, 0)]:
+                bad('history-dependent-result', 'result differs after the caller modified earlier results')
+    if [snap_tdm(t[0]) for t in tdms] != snaps:
+        bad('argument-modified', 'TDM data (ra / dec / src_array / index arrays) changed by the field function')
+
+
+def run_history(ctx, hseed):
+    import random
+    funcs = _hist_funcs()
+    for rep in range(2):
+        rng = random.Random(hseed * 1000 + rep)
+        for site, (fn, oracle, kind) in funcs.items():
+            ctx.count('history:' + site)
+            probe_pure(ctx, site, fn, oracle, kind, rng, hseed)
+        probe_shapes(ctx, rng, hseed)
+        probe_tdm(ctx, rng, hseed)
+    ctx.case({'f': 'history', 'seed': hseed})
+
+
 # ---------------------------------------------------------------------- driver
 
 def execute(ctx, cases, rng, tdm_groups):
@@ -711,6 +1101,8 @@ def run(ctx):
                     cases.append({'f': 'rot', 'kind': 'grid', 'ra1': a1, 'dec1': b1, 'ra2': a2, 'dec2': b2, 'ra3': a3, 'dec3': b3})
                     ctx.count('rot:grid')
     lines, checks = execute(ctx, cases, rng, 150 * mult)
+    for h in range(ctx.budget(5, 100)):
+        run_history(ctx, rng.randrange(10 ** 6))
     for c in cases[-3:] + cases[:2]:
         ctx.sample({k: v for k, v in c.items()})
     model_side(ctx, lines, checks)
@@ -722,6 +1114,9 @@ def replay(ctx, rp):
         ctx.notes.append('replay file has no concrete input (broken obligation): re-running the full check')
         return run(ctx)
     c = {k: v for k, v in c.items() if k not in ('impl', 'cond')}
+    if c['f'] == 'history':
+        ctx.sample(c)
+        return run_history(ctx, int(c.get('seed', 0)))
     if c['f'] == 'tdm':
         c = {'f': 'sep', 'kind': 'replay', 'ra1': c['ra'], 'dec1': c['dec'], 'ra2': c['src_ra'], 'dec2': c['src_dec'],
              'floor': c.get('floor')}
